@@ -95,11 +95,15 @@ def gen_case(rng):
         ops.append([rng.choice(['zip', 'union'])])
         kind = 'tup' if ops[0][0] == 'zip' else 'int'
     for _ in range(rng.randrange(1, 5)):
-        c = rng.choice(['map', 'map', 'accumulate', 'partition', 'sliding_window', 'buffer', 'starmap'])
+        c = rng.choice(['map', 'map', 'accumulate', 'partition', 'sliding_window', 'buffer', 'starmap', 'diamond'])
         if c == 'map':
             f = rng.choice(['inc', 'dbl', 'fsum', 'pair'])
             ops.append(['map', f])
             kind = 'tup' if f == 'pair' else ('int' if f in ('dbl', 'fsum') else kind)
+        elif c == 'diamond':
+            # two branches of one node joined again by union: the tasks of the two branches finish in any order
+            ops.append(['diamond', rng.choice(['inc', 'dbl']), rng.choice(['fsum', 'pair'])])
+            kind = 'any'
         elif c == 'starmap':
             if kind != 'tup':
                 continue
@@ -133,13 +137,27 @@ def gen_case(rng):
             'fanout': rng.choice([1, 1, 1, 2, 3])}      # how many consumers hang off the end of the segment (off gather())
 
 
+class Got(list):
+    """results in the order in which the consumer finished with them; .called: in the order in which it was handed them"""
+    def __init__(self):
+        super().__init__()
+        self.called = []
+
+
 def make_sink(case, got):
     if case.get('sink', 'sync') == 'sync':
-        return got.append
+        def plain(x):
+            got.called.append(x)
+            got.append(x)
+        return plain
 
-    async def consume(x):
-        await asyncio.sleep((4 - F.fsum(x) % 5) / 1000.0 if F.fsum(x) % 5 < 4 else 0)
-        got.append(x)
+    def consume(x):
+        got.called.append(x)        # the sequence of results AT the sink: the order of the calls
+
+        async def body():
+            await asyncio.sleep((4 - F.fsum(x) % 5) / 1000.0 if F.fsum(x) % 5 < 4 else 0)
+            got.append(x)
+        return body()
     return consume
 
 
@@ -158,6 +176,8 @@ def build(case, dask, sink):
             node = na.union(nb)
         elif op[0] == 'map':
             node = node.map(MAPF[op[1]])
+        elif op[0] == 'diamond':
+            node = node.map(MAPF[op[1]]).union(node.map(MAPF[op[2]]))
         elif op[0] == 'starmap':
             node = node.starmap(j_sm)
         elif op[0] == 'accumulate':
@@ -200,7 +220,7 @@ def _norm(x):
 async def run_local(case):
     """the local twin, on the same loop (asynchronous=True so that buffer works without a thread)"""
     from tornado.ioloop import IOLoop
-    got = []
+    got = Got()
     a, b = _build_local_async(case, make_sink(case, got))
     refs = []
     for k, (e, v) in enumerate(case['inputs']):
@@ -226,6 +246,8 @@ def _build_local_async(case, sink):
             node = a.union(b)
         elif op[0] == 'map':
             node = node.map(MAPF[op[1]])
+        elif op[0] == 'diamond':
+            node = node.map(MAPF[op[1]]).union(node.map(MAPF[op[2]]))
         elif op[0] == 'starmap':
             node = node.starmap(j_sm)
         elif op[0] == 'accumulate':
@@ -259,7 +281,7 @@ def _build_local_async(case, sink):
 
 async def run_dask(case, expect_n, patient=False, expect_counts=None):
     from tornado.ioloop import IOLoop
-    got = []
+    got = Got()
     a, b = build(case, True, make_sink(case, got))
     refs = []
     for k, (e, v) in enumerate(case['inputs']):
@@ -316,7 +338,11 @@ async def shard_main(seed, tier, shard, out):
                 ssinks._global_sinks.clear()
             C['twin_sequences_compared'] = C.get('twin_sequences_compared', 0) + 1
             C['dask_counters_settled_only_after_the_grace_period'] = SETTLE.get('late', 0)
-            ln, dn = [_norm(x) for x in lgot], [_norm(x) for x in dgot]
+            # order: that of the calls of the consumer (two coroutine bodies running at once finish in an order that depends on
+            # when each was started); completeness: every call's body has finished
+            ln, dn = [_norm(x) for x in lgot.called], [_norm(x) for x in dgot.called]
+            if len(dgot) < len(lgot) and len(dn) >= len(ln):
+                dn = dn[:len(dgot)]         # handed to the consumer, but its awaitable never finished: counts as missing
             if ln != dn:
                 if sorted(map(repr, ln)) == sorted(map(repr, dn)):
                     key = 'C20:order-differs'
@@ -370,7 +396,9 @@ def replay(case):
             DELAYS['salt'] = case['salt']
             lgot, lrefs = await run_local(case)
             dgot, drefs = await run_dask(case, len(lgot))
-            ln, dn = [_norm(x) for x in lgot], [_norm(x) for x in dgot]
+            ln, dn = [_norm(x) for x in lgot.called], [_norm(x) for x in dgot.called]
+            if len(dgot) < len(lgot) and len(dn) >= len(ln):
+                dn = dn[:len(dgot)]
             if ln != dn:
                 out['violations'].append({'key': 'C20:results-differ', 'what': 'local %s dask %s' % (ln, dn), 'case': case})
             for lr, dr in zip(lrefs, drefs):
